@@ -8,12 +8,255 @@ the re-entered activation is the ordinary application of the same closure (`FCla
 activation returns its value (`RetOut`: the code of the call does not land at its own end). Guard
 fails: the ordinary call.
 -/
-import ZygoVerif.Proofs.SimF2Forms
+import ZygoVerif.Proofs.SimF2BrkFor
 import ZygoVerif.Proofs.TailVM
 set_option linter.unusedSimpArgs false
 set_option linter.unusedVariables false
 namespace ZygoVerif.Sim
 open ZygoVerif.Core ZygoVerif.VM
+
+/-! ## The generator on tail positions (`Fz`) -/
+
+theorem gsOk_nil {gs : GS} (h : gs.loopstack = []) : GsOk [] gs := ⟨by simp [h], fun _ h => by cases h⟩
+
+theorem lsIn_tailCode {h : String} {sc : Nat} {args : List Expr} {code : List Instr} {a b : Nat} (hc : LsIn code a b) :
+    LsIn (tailCode h sc args code) a b := by
+  intro l hl
+  simp [tailCode, List.mem_replicate] at hl
+  exact hc l hl
+
+theorem compileCallArgs_total_ls : ∀ (self : String) (args : List Expr), FfList false self args = true →
+    ∀ isFn c f i gs, FnameOk self c →
+    ∃ code gs', (compileCallArgs isFn c f i args).run gs = .ok (code, gs') ∧ TotX gs gs' code
+  | _, [], _, isFn, c, f, i, gs, _ =>
+    ⟨[], gs, by rw [compileCallArgs.eq_def]; rfl, KeepFns.refl _, Nat.le_refl _, LsIn.nil _ _⟩
+  | self, e :: es, he, isFn, c, f, i, gs, hfn => by
+    rw [FfList] at he
+    simp only [Bool.and_eq_true] at he
+    obtain ⟨a, t, g1, ha, _, hk1⟩ := compile_total_Ff false self e he.1 isFn c gs hfn
+    have hl1 := compile_ls_Ff false self e he.1 isFn c gs _ ha hfn
+    have key : ∀ (b : Bool), ∃ code gs', (do
+          let a ← (if b = true then pure [Instr.pushLazy e] else (do let (a, _) ← compile isFn c e; pure a) : G (List Instr))
+          let r ← compileCallArgs isFn c f (i + 1) es
+          pure (a ++ r) : G (List Instr)).run gs = .ok (code, gs') ∧ TotX gs gs' code := by
+      intro b
+      cases b
+      · obtain ⟨r, g2, hr, hk2⟩ := compileCallArgs_total_ls self es he.2 isFn c f (i + 1) g1 hfn
+        refine ⟨a ++ r, g2, ?_, TotX.seq ⟨hk1.1, hl1⟩ hk2 (fun x y hx hy => hx.app hy)⟩
+        simp only [Bool.false_eq_true, if_false, g_bind_ok, g_pure_ok]
+        exact ⟨_, _, ⟨_, _, ha, rfl⟩, _, _, hr, rfl⟩
+      · obtain ⟨r, g2, hr, hk2⟩ := compileCallArgs_total_ls self es he.2 isFn c f (i + 1) gs hfn
+        refine ⟨[.pushLazy e] ++ r, g2, ?_, hk2.1, hk2.2.1, ?_⟩
+        · simp only [if_true, g_bind_ok, g_pure_ok]
+          exact ⟨_, _, rfl, _, _, hr, rfl⟩
+        · have := hk2.2.2
+          lsin
+    rw [compileCallArgs.eq_def]
+    exact key _
+
+/-- a call in tail position: an ordinary call, or (own name, right arity) the tail sequence -/
+theorem compile_total_call_ls {self h : String} {args : List Expr} (hh : (h != "") = true) (hhead : okHead h = true)
+    (hself : (h != self) = true ∨ FfList false self args = true) (isFn : Nat → Bool) (c : Ctx) (gs : GS) (hfn : FnameOk self c) :
+    ∃ code gs', (compile isFn c (.call (.sym h) args)).run gs = .ok ((code, c.tail), gs') ∧ code ≠ [] ∧ TotX gs gs' code := by
+  rw [compile_call_eq]
+  by_cases hc : (c.tail && h == c.funcname) = true ∧ arityOk (knownFn c gs h) args.length = true
+  · rw [if_pos hc]
+    have hhc : h = c.funcname := by have := hc.1; simp only [Bool.and_eq_true, beq_iff_eq] at this; exact this.2
+    have hargs : FfList false self args = true := by
+      rcases hself with hne | ha
+      · have := ff_call_ne hfn hne hh hhead
+        rw [← hhc] at this; simp at this
+      · exact ha
+    have hfn' : FnameOk self { c with tail := false } := hfn
+    obtain ⟨code, g1, hcode, hk⟩ := compileCallArgs_total_ls self args hargs isFn { c with tail := false } (knownFn c gs h) 0 gs hfn'
+    refine ⟨tailCode h c.scopes args code, g1, ?_, tailCode_ne_nil _ _ _ _, hk.1, hk.2.1, lsIn_tailCode hk.2.2⟩
+    have : (compileCallArgs isFn { c with tail := false } (knownFn c gs h) 0 args).run gs = .ok (code, g1) := hcode
+    rw [this]
+  · rw [if_neg hc]
+    exact ⟨_, gs, rfl, by simp, KeepFns.refl _, Nat.le_refl _, by lsin⟩
+
+/-- a statement before the last one of a body -/
+theorem total_stmt {ex : Bool} {self : String} {e : Expr} (he : (if ex then Fx [] self e else Ff true self e) = true)
+    (isFn : Nat → Bool) (c : Ctx) (gs : GS) (hfn : FnameOk self c) (hex : ex = true → gs.loopstack = []) :
+    ∃ code t gs', (compile isFn c e).run gs = .ok ((code, t), gs') ∧ code ≠ [] ∧ TotX gs gs' code := by
+  cases ex with
+  | false => exact total_of_Ff (by simpa using he) isFn c gs hfn
+  | true => exact compile_total_Fx [] self e (by simpa using he) isFn c gs [] hfn (gsOk_nil (hex rfl)) rfl
+
+mutual
+theorem compile_total_Fz : ∀ (ex : Bool) (self : String) (e : Expr), Fz ex self e = true → ∀ isFn c gs, FnameOk self c →
+    (ex = true → gs.loopstack = []) →
+    ∃ code t gs', (compile isFn c e).run gs = .ok ((code, t), gs') ∧ code ≠ [] ∧ TotX gs gs' code
+  | ex, self, .call f args, he, isFn, c, gs, hfn, hex => by
+    cases f with
+    | sym h =>
+      rw [Fz] at he
+      simp only [Bool.and_eq_true, Bool.or_eq_true] at he
+      obtain ⟨code, g1, h1, h2, h3⟩ := compile_total_call_ls he.1.1.1 he.1.1.2 he.2 isFn c gs hfn
+      exact ⟨code, _, g1, h1, h2, h3⟩
+    | _ => simp [Fz] at he
+  | ex, self, .begin_ es, he, isFn, c, gs, hfn, hex => by
+    rw [Fz] at he
+    cases es with
+    | nil => exact ⟨[.push .nil], c.tail, gs, by rw [compile]; rfl, by simp, KeepFns.refl _, Nat.le_refl _, by lsin⟩
+    | cons e0 es0 =>
+      rw [compile]
+      · exact compileBegin_total_Fz ex self (e0 :: es0) (by simp) he isFn c gs hfn hex
+      · intro hh; cases hh
+  | ex, self, .cond arms d, he, isFn, c, gs, hfn, hex => by
+    rw [Fz] at he
+    simp only [Bool.and_eq_true] at he
+    obtain ⟨dc, t, g1, hd, hdne, hf1⟩ := compile_total_Fz ex self d he.2 isFn c gs hfn hex
+    obtain ⟨as, g2, has, hf2, hl2, hin2⟩ := compileArms_total_Fz ex self arms he.1 isFn c g1 hfn
+      (fun h => by rw [hf1.1.loopstack]; exact hex h)
+    refine ⟨asmCond as dc, c.tail, g2, ?_, asmCond_ne_nil as dc hdne, hf1.1.trans hf2, Nat.le_trans hf1.2.1 hl2, ?_⟩
+    · rw [compile]
+      simp only [g_bind_ok, g_pure_ok]
+      exact ⟨_, _, hd, _, _, has, rfl⟩
+    · exact lsIn_asmCond _ _ (fun p hp => ⟨(hin2 p hp).1.mono hf1.2.1 (Nat.le_refl _),
+        (hin2 p hp).2.mono hf1.2.1 (Nat.le_refl _)⟩) (hf1.2.2.mono (Nat.le_refl _) hl2)
+  | ex, self, .let_ seq bs body, he, isFn, c, gs, hfn, hex => by
+    rw [Fz] at he
+    simp only [Bool.and_eq_true, Bool.not_eq_true', List.isEmpty_eq_false_iff] at he
+    obtain ⟨⟨⟨_, hbody⟩, hbs⟩, hbl⟩ := he
+    have hfn' : FnameOk self { c with scopes := c.scopes + 1, tail := false } := hfn
+    obtain ⟨rhs, t1, g1, h1, hf1⟩ := compileBinds_total_Ff true self bs hbs isFn { c with scopes := c.scopes + 1, tail := false } seq gs hfn'
+    have hl1 := compileBinds_ls_Ff true self bs hbs isFn _ seq gs _ h1 hfn'
+    obtain ⟨b, t2, g2, h2, _, hf2⟩ := compileBegin_total_Fz ex self body hbody hbl isFn { c with scopes := c.scopes + 1 } g1 hfn
+      (fun h => by rw [hf1.1.loopstack]; exact hex h)
+    refine ⟨[.addScope] ++ rhs ++ (if seq then [] else (bs.map (fun p => Instr.popStackPutEnv p.1)).reverse)
+      ++ b ++ [.removeScope], t2, g2, ?_, by simp, TotX.seq ⟨hf1.1, hl1⟩ hf2 (fun x y hx hy => ?_)⟩
+    · rw [compile]
+      simp only [g_bind_ok, g_pure_ok]
+      exact ⟨_, _, h1, _, _, h2, rfl⟩
+    · have h5 : LsIn (bs.map (fun p => Instr.popStackPutEnv p.1)).reverse x y := by
+        intro l hl
+        simp only [List.mem_reverse, List.mem_map] at hl
+        obtain ⟨_, _, hh⟩ := hl; cases hh
+      lsin
+  | ex, self, .newScope es, he, isFn, c, gs, hfn, hex => by
+    rw [Fz] at he
+    simp only [Bool.and_eq_true, Bool.not_eq_true', List.isEmpty_eq_false_iff] at he
+    obtain ⟨code, t, g1, h1, _, hf1⟩ := compileNewScope_total_Fz ex self es he.1 he.2 isFn { c with scopes := c.scopes + 1 }
+      c.tail gs hfn hex
+    refine ⟨[.addScope] ++ code ++ [.removeScope], t, g1, ?_, by simp, hf1.1, hf1.2.1, ?_⟩
+    · cases es with
+      | nil => exact absurd rfl he.1
+      | cons e es =>
+        rw [compile]
+        · simp only [g_bind_ok, g_pure_ok]
+          exact ⟨_, _, h1, rfl⟩
+        · intro hh; cases hh
+    · have := hf1.2.2
+      lsin
+  | ex, self, .for_ l i t st b, he, isFn, c, gs, hfn, hex => by
+    rw [Fz] at he
+    exact total_stmt he isFn c gs hfn hex
+  | ex, self, .int v, he, isFn, c, gs, hfn, hex | ex, self, .bool v, he, isFn, c, gs, hfn, hex
+  | ex, self, .str v, he, isFn, c, gs, hfn, hex | ex, self, .nilLit, he, isFn, c, gs, hfn, hex
+  | ex, self, .sym x, he, isFn, c, gs, hfn, hex | ex, self, .arr es, he, isFn, c, gs, hfn, hex
+  | ex, self, .def_ x e, he, isFn, c, gs, hfn, hex | ex, self, .set_ x e, he, isFn, c, gs, hfn, hex
+  | ex, self, .and_ es, he, isFn, c, gs, hfn, hex | ex, self, .or_ es, he, isFn, c, gs, hfn, hex
+  | ex, self, .fn _ _ _, he, isFn, c, gs, hfn, hex | ex, self, .defn _ _ _ _, he, isFn, c, gs, hfn, hex => by
+    rw [Fz] at he
+    exact total_of_Ff he isFn c gs hfn
+  | ex, self, .assign _ _, he, _, _, _, _, _ | ex, self, .bad _, he, _, _, _, _, _
+  | ex, self, .break_ _, he, _, _, _, _, _ | ex, self, .continue_ _, he, _, _, _, _, _ => by
+    simp [Fz] at he
+theorem compileBegin_total_Fz : ∀ (ex : Bool) (self : String) (es : List Expr), es ≠ [] → FzList ex self es = true →
+    ∀ isFn c gs, FnameOk self c → (ex = true → gs.loopstack = []) →
+    ∃ code t gs', (compileBegin isFn c es).run gs = .ok ((code, t), gs') ∧ code ≠ [] ∧ TotX gs gs' code
+  | _, _, [], hne, _, _, _, _, _, _ => absurd rfl hne
+  | ex, self, [e], _, he, isFn, c, gs, hfn, hex => by
+    rw [FzList] at he
+    rw [compileBegin]
+    exact compile_total_Fz ex self e he isFn c gs hfn hex
+  | ex, self, e :: e' :: es, _, he, isFn, c, gs, hfn, hex => by
+    rw [FzList] at he
+    simp only [Bool.and_eq_true] at he
+    have hfn' : FnameOk self { c with tail := false } := hfn
+    obtain ⟨a, ta, g1, ha, hane, hf1⟩ := total_stmt he.1 isFn { c with tail := false } gs hfn' hex
+    obtain ⟨b, tb, g2, hb, _, hf2⟩ := compileBegin_total_Fz ex self (e' :: es) (by simp) he.2 isFn c g1 hfn
+      (fun h => by rw [hf1.1.loopstack]; exact hex h)
+    refine ⟨a ++ (if a.isEmpty then [] else [.pop]) ++ b, tb, g2, ?_, by simp [hane],
+      TotX.seq hf1 hf2 (fun x y hx hy => by lsin)⟩
+    rw [compileBegin]
+    · simp only [g_bind_ok, g_pure_ok]
+      exact ⟨_, _, ha, _, _, hb, rfl⟩
+    · intro hh; cases hh
+theorem compileNewScope_total_Fz : ∀ (ex : Bool) (self : String) (es : List Expr), es ≠ [] → FzList ex self es = true →
+    ∀ isFn c oldtail gs, FnameOk self c → (ex = true → gs.loopstack = []) →
+    ∃ code t gs', (compileNewScope isFn c oldtail es).run gs = .ok ((code, t), gs') ∧ code ≠ [] ∧ TotX gs gs' code
+  | _, _, [], hne, _, _, _, _, _, _, _ => absurd rfl hne
+  | ex, self, [e], _, he, isFn, c, oldtail, gs, hfn, hex => by
+    rw [FzList] at he
+    rw [compileNewScope]
+    exact compile_total_Fz ex self e he isFn _ gs hfn hex
+  | ex, self, e :: e' :: es, _, he, isFn, c, oldtail, gs, hfn, hex => by
+    rw [FzList] at he
+    simp only [Bool.and_eq_true] at he
+    have hfn' : FnameOk self { c with tail := false } := hfn
+    obtain ⟨a, ta, g1, ha, hane, hf1⟩ := total_stmt he.1 isFn { c with tail := false } gs hfn' hex
+    obtain ⟨b, tb, g2, hb, _, hf2⟩ := compileNewScope_total_Fz ex self (e' :: es) (by simp) he.2 isFn c oldtail g1 hfn
+      (fun h => by rw [hf1.1.loopstack]; exact hex h)
+    refine ⟨a ++ [.pop] ++ b, tb, g2, ?_, by simp, TotX.seq hf1 hf2 (fun x y hx hy => by lsin)⟩
+    rw [compileNewScope]
+    · simp only [g_bind_ok, g_pure_ok]
+      exact ⟨_, _, ha, _, _, hb, rfl⟩
+    · intro hh; cases hh
+theorem compileArms_total_Fz : ∀ (ex : Bool) (self : String) (arms : List (Expr × Expr)), FzArms ex self arms = true →
+    ∀ isFn c gs, FnameOk self c → (ex = true → gs.loopstack = []) →
+    ∃ as gs', (compileArms isFn c arms).run gs = .ok (as, gs') ∧ KeepFns gs gs' ∧ gs.loops.length ≤ gs'.loops.length
+      ∧ ∀ p ∈ as, LsIn p.1 gs.loops.length gs'.loops.length ∧ LsIn p.2 gs.loops.length gs'.loops.length
+  | _, _, [], _, isFn, c, gs, _, _ =>
+    ⟨[], gs, by rw [compileArms]; rfl, KeepFns.refl _, Nat.le_refl _, fun _ h => by cases h⟩
+  | ex, self, (p, b) :: arms, he, isFn, c, gs, hfn, hex => by
+    rw [FzArms] at he
+    simp only [Bool.and_eq_true] at he
+    have hfn' : FnameOk self { c with tail := false } := hfn
+    obtain ⟨r, g1, hr, hf1, hl1, hin1⟩ := compileArms_total_Fz ex self arms he.2 isFn c gs hfn hex
+    obtain ⟨pc, _, g2, hp, _, hf2⟩ := total_of_Ff he.1.1 isFn { c with tail := false } g1 hfn'
+    obtain ⟨bc, _, g3, hb, _, hf3⟩ := compile_total_Fz ex self b he.1.2 isFn c g2 hfn
+      (fun h => by rw [hf2.1.loopstack, hf1.loopstack]; exact hex h)
+    refine ⟨(pc, bc) :: r, g3, ?_, (hf1.trans hf2.1).trans hf3.1, Nat.le_trans hl1 (Nat.le_trans hf2.2.1 hf3.2.1), fun x hx => ?_⟩
+    · rw [compileArms]
+      simp only [g_bind_ok, g_pure_ok]
+      exact ⟨_, _, hr, _, _, hp, _, _, hb, rfl⟩
+    · rcases List.mem_cons.mp hx with rfl | hx
+      · exact ⟨hf2.2.2.mono hl1 hf3.2.1, hf3.2.2.mono (Nat.le_trans hl1 hf2.2.1) (Nat.le_refl _)⟩
+      · exact ⟨(hin1 x hx).1.mono (Nat.le_refl _) (Nat.le_trans hf2.2.1 hf3.2.1),
+          (hin1 x hx).2.mono (Nat.le_refl _) (Nat.le_trans hf2.2.1 hf3.2.1)⟩
+end
+
+theorem tot_stmt {ex : Bool} {self : String} {e : Expr} (he : (if ex then Fx [] self e else Ff true self e) = true)
+    {isFn c gs r} (hfn : FnameOk self c) (hex : ex = true → gs.loopstack = []) (h : (compile isFn c e).run gs = .ok r) :
+    r.1.1 ≠ [] ∧ TotX gs r.2 r.1.1 := by
+  obtain ⟨code, t, g1, h1, hne, hk⟩ := total_stmt he isFn c gs hfn hex
+  rw [h1] at h; injection h with h; subst h; exact ⟨hne, hk⟩
+
+theorem compile_tot_Fz {ex : Bool} {self : String} {e : Expr} (he : Fz ex self e = true) {isFn c gs r} (hfn : FnameOk self c)
+    (hex : ex = true → gs.loopstack = []) (h : (compile isFn c e).run gs = .ok r) : r.1.1 ≠ [] ∧ TotX gs r.2 r.1.1 := by
+  obtain ⟨code, t, g1, h1, hne, hk⟩ := compile_total_Fz ex self e he isFn c gs hfn hex
+  rw [h1] at h; injection h with h; subst h; exact ⟨hne, hk⟩
+
+theorem compileBegin_tot_Fz {ex : Bool} {self : String} {es : List Expr} (hne : es ≠ []) (he : FzList ex self es = true)
+    {isFn c gs r} (hfn : FnameOk self c) (hex : ex = true → gs.loopstack = []) (h : (compileBegin isFn c es).run gs = .ok r) :
+    TotX gs r.2 r.1.1 := by
+  obtain ⟨code, t, g1, h1, _, hk⟩ := compileBegin_total_Fz ex self es hne he isFn c gs hfn hex
+  rw [h1] at h; injection h with h; subst h; exact hk
+
+theorem compileNewScope_tot_Fz {ex : Bool} {self : String} {es : List Expr} (hne : es ≠ []) (he : FzList ex self es = true)
+    {isFn c oldtail gs r} (hfn : FnameOk self c) (hex : ex = true → gs.loopstack = [])
+    (h : (compileNewScope isFn c oldtail es).run gs = .ok r) : TotX gs r.2 r.1.1 := by
+  obtain ⟨code, t, g1, h1, _, hk⟩ := compileNewScope_total_Fz ex self es hne he isFn c oldtail gs hfn hex
+  rw [h1] at h; injection h with h; subst h; exact hk
+
+theorem compileArms_tot_Fz {ex : Bool} {self : String} {arms : List (Expr × Expr)} (he : FzArms ex self arms = true)
+    {isFn c gs r} (hfn : FnameOk self c) (hex : ex = true → gs.loopstack = []) (h : (compileArms isFn c arms).run gs = .ok r) :
+    KeepFns gs r.2 ∧ gs.loops.length ≤ r.2.loops.length
+      ∧ ∀ p ∈ r.1, LsIn p.1 gs.loops.length r.2.loops.length ∧ LsIn p.2 gs.loops.length r.2.loops.length := by
+  obtain ⟨as, g1, h1, hk⟩ := compileArms_total_Fz ex self arms he isFn c gs hfn hex
+  rw [h1] at h; injection h with h; subst h; exact hk
 
 /-! ## The machine -/
 
@@ -472,43 +715,68 @@ theorem simT_selfcall {k : Nat} (hV : TClaimV (k + 1)) (hA : FClaimA (k + 1)) (h
 
 /-! ## The claims for tail positions -/
 
+theorem simF_of_simX_nil {code : List Instr} {m : Nat → Nat} {s : St} {rs : Ref.St} {env : Nat} {res : Ref.R Val}
+    (h : SimX code [] m s rs env res) : SimF code m s rs env res := by
+  cases res with
+  | ok v rs' => exact h
+  | err rs' => exact h
+  | timeout => trivial
+  | brk l rs' => obtain ⟨γ, hγ, _⟩ := h; cases l <;> simp [findCtx] at hγ
+  | cont l rs' => obtain ⟨γ, hγ, _⟩ := h; cases l <;> simp [findCtx] at hγ
+
+/-- a statement that is not in tail position: a form of F2, or (`ex`) one whose loops `break`/`continue` -/
+theorem simF_stmt {n : Nat} (hFE : FClaimE n) (hXE : XClaimE n) {ex : Bool} {self : String} {e : Expr}
+    (he : (if ex then Fx [] self e else Ff true self e) = true) (isFn : Nat → Bool) (c : Ctx) (gs : GS)
+    (r : (List Instr × Bool) × GS) (hc : (compile isFn c e).run gs = .ok r) (hfn : FnameOk self c)
+    (hex : ex = true → gs.loopstack = []) (m : Nat → Nat) (s : St) (rs : Ref.St) (env : Nat) (pre post : List Instr)
+    (hrel : RelF m s rs env) (hgen : GenOk gs r.2 s) (hlo : LsOut pre gs.loops.length r.2.loops.length)
+    (hseg : Seg s pre r.1.1 post) : SimF r.1.1 m s rs env (Ref.eval n e env rs) := by
+  cases ex with
+  | false => exact hFE true self e (by simpa using he) isFn c gs r hc hfn m s rs env pre post hrel (fun _ => hgen) hseg
+  | true =>
+    exact simF_of_simX_nil (hXE [] self e (by simpa using he) isFn c gs r hc hfn [] rfl (gsOk_nil (hex rfl)) m s rs env pre post
+      hrel hgen (fun _ h => by cases h) hgen.loops hlo hseg)
+
 def TClaimE (n : Nat) : Prop :=
-  ∀ self e, Fz self e = true → ∀ isFn c gs r, (compile isFn c e).run gs = .ok r → FnameOk self c →
-  ∀ ps, KnownOk c gs ps → (∀ p ∈ ps, okParam p = true) →
+  ∀ ex self e, Fz ex self e = true → ∀ isFn c gs r, (compile isFn c e).run gs = .ok r → FnameOk self c →
+  (ex = true → gs.loopstack = []) → ∀ ps, KnownOk c gs ps → (∀ p ∈ ps, okParam p = true) →
   ∀ m₁ s₁ rs₁ env vid D m s rs cenv pre post, InAct m₁ s₁ rs₁ env vid D c.scopes m s rs → (fnOf s₁ vid).nargs = ps.length →
-    RelF m s rs cenv → GenOk gs r.2 s → Seg s pre r.1.1 post →
+    RelF m s rs cenv → GenOk gs r.2 s → LsOut pre gs.loops.length r.2.loops.length → Seg s pre r.1.1 post →
     SimT r.1.1 s₁ env D m s rs cenv (Ref.eval n e cenv rs)
 
 def TClaimB (n : Nat) : Prop :=
-  ∀ self es, es ≠ [] → FzList self es = true → ∀ isFn c gs r, (compileBegin isFn c es).run gs = .ok r → FnameOk self c →
-  ∀ ps, KnownOk c gs ps → (∀ p ∈ ps, okParam p = true) →
+  ∀ ex self es, es ≠ [] → FzList ex self es = true → ∀ isFn c gs r, (compileBegin isFn c es).run gs = .ok r → FnameOk self c →
+  (ex = true → gs.loopstack = []) → ∀ ps, KnownOk c gs ps → (∀ p ∈ ps, okParam p = true) →
   ∀ m₁ s₁ rs₁ env vid D m s rs cenv pre post, InAct m₁ s₁ rs₁ env vid D c.scopes m s rs → (fnOf s₁ vid).nargs = ps.length →
-    RelF m s rs cenv → GenOk gs r.2 s → Seg s pre r.1.1 post →
+    RelF m s rs cenv → GenOk gs r.2 s → LsOut pre gs.loops.length r.2.loops.length → Seg s pre r.1.1 post →
     SimT r.1.1 s₁ env D m s rs cenv (Ref.evalBegin n es cenv rs)
 
 def TClaimN (n : Nat) : Prop :=
-  ∀ self es, es ≠ [] → FzList self es = true → ∀ isFn c oldtail gs r, (compileNewScope isFn c oldtail es).run gs = .ok r →
-  FnameOk self c → ∀ ps, KnownOk c gs ps → (∀ p ∈ ps, okParam p = true) →
+  ∀ ex self es, es ≠ [] → FzList ex self es = true → ∀ isFn c oldtail gs r, (compileNewScope isFn c oldtail es).run gs = .ok r →
+  FnameOk self c → (ex = true → gs.loopstack = []) → ∀ ps, KnownOk c gs ps → (∀ p ∈ ps, okParam p = true) →
   ∀ m₁ s₁ rs₁ env vid D m s rs cenv pre post, InAct m₁ s₁ rs₁ env vid D c.scopes m s rs → (fnOf s₁ vid).nargs = ps.length →
-    RelF m s rs cenv → GenOk gs r.2 s → Seg s pre r.1.1 post →
+    RelF m s rs cenv → GenOk gs r.2 s → LsOut pre gs.loops.length r.2.loops.length → Seg s pre r.1.1 post →
     SimT r.1.1 s₁ env D m s rs cenv (Ref.evalBegin n es cenv rs)
 
 def TClaimC (n : Nat) : Prop :=
-  ∀ self arms d, FzArms self arms = true → Fz self d = true → ∀ isFn c gs r gs0 rd,
+  ∀ ex self arms d, FzArms ex self arms = true → Fz ex self d = true → ∀ isFn c gs r gs0 rd,
     (compileArms isFn c arms).run gs = .ok r → (compile isFn c d).run gs0 = .ok rd → FnameOk self c →
+  (ex = true → gs.loopstack = []) → (ex = true → gs0.loopstack = []) →
   ∀ ps, KnownOk c gs ps → KnownOk c gs0 ps → (∀ p ∈ ps, okParam p = true) →
   ∀ m₁ s₁ rs₁ env vid D m s rs cenv pre post, InAct m₁ s₁ rs₁ env vid D c.scopes m s rs → (fnOf s₁ vid).nargs = ps.length →
-    RelF m s rs cenv → GenOk gs r.2 s → GenOk gs0 rd.2 s → Seg s pre (asmCond r.1 rd.1.1) post →
+    RelF m s rs cenv → GenOk gs r.2 s → GenOk gs0 rd.2 s →
+    LsOut pre gs.loops.length r.2.loops.length → LsOut pre gs0.loops.length rd.2.loops.length →
+    rd.2.loops.length ≤ gs.loops.length → Seg s pre (asmCond r.1 rd.1.1) post →
     SimT (asmCond r.1 rd.1.1) s₁ env D m s rs cenv (Ref.evalCond n arms d cenv rs)
 
-theorem tclaimB_succ {n : Nat} (hFE : FClaimE n) (hE : TClaimE n) (hB : TClaimB n) : TClaimB (n + 1) := by
-  intro self es hne hes isFn c gs r hc hfn ps hkn hps m₁ s₁ rs₁ env vid D m s rs cenv pre post hact hna hrel hgen hseg
+theorem tclaimB_succ {n : Nat} (hFE : FClaimE n) (hXE : XClaimE n) (hE : TClaimE n) (hB : TClaimB n) : TClaimB (n + 1) := by
+  intro ex self es hne hes isFn c gs r hc hfn hex ps hkn hps m₁ s₁ rs₁ env vid D m s rs cenv pre post hact hna hrel hgen hlo hseg
   match es, hne with
   | [e], _ =>
     rw [FzList] at hes
     rw [compileBegin] at hc
     rw [Ref.evalBegin]
-    exact hE self e hes isFn c gs r hc hfn ps hkn hps m₁ s₁ rs₁ env vid D m s rs cenv pre post hact hna hrel hgen hseg
+    exact hE ex self e hes isFn c gs r hc hfn hex ps hkn hps m₁ s₁ rs₁ env vid D m s rs cenv pre post hact hna hrel hgen hlo hseg
   | e :: e' :: es', _ =>
     rw [FzList] at hes
     simp only [Bool.and_eq_true] at hes
@@ -516,23 +784,24 @@ theorem tclaimB_succ {n : Nat} (hFE : FClaimE n) (hE : TClaimE n) (hB : TClaimB 
     · simp only [g_bind_ok, g_pure_ok] at hc
       obtain ⟨ra, gs1, ha, rb, gs2, hb, rfl⟩ := hc
       have hfn' : FnameOk self { c with tail := false } := hfn
-      have hk1 := compile_keep_Ff hes.1 ha hfn'
-      have hk2 := compileBegin_tot_Fz (by simp) hes.2 hfn hb
-      have hane : ra.1.isEmpty = false := by
-        simpa [List.isEmpty_eq_false_iff] using compile_ne_nil_Ff hes.1 ha hfn'
-      simp only [hane, Bool.false_eq_true, if_false] at hseg hgen ⊢
+      obtain ⟨hane', tot1⟩ := tot_stmt hes.1 hfn' hex ha
+      have hex1 : ex = true → gs1.loopstack = [] := fun h => by rw [tot1.1.loopstack]; exact hex h
+      have tot2 := compileBegin_tot_Fz (by simp) hes.2 hfn hex1 hb
+      have hane : ra.1.isEmpty = false := by simpa [List.isEmpty_eq_false_iff] using hane'
+      simp only [hane, Bool.false_eq_true, if_false] at hseg hgen hlo ⊢
       rw [Ref.evalBegin]
-      · have ih := hFE true self e hes.1 isFn _ gs (ra, gs1) ha hfn' m s rs cenv pre ([.pop] ++ rb.1 ++ post) hrel
-          (fun _ => hgen.first hk2) (hseg.refocus (by simp))
+      · have ih := simF_stmt hFE hXE hes.1 isFn _ gs (ra, gs1) ha hfn' hex m s rs cenv pre ([.pop] ++ rb.1 ++ post) hrel
+          (hgen.first tot2.1) (hlo.mono (Nat.le_refl _) tot2.2.1) (hseg.refocus (by simp))
         cases h1 : Ref.eval n e cenv rs with
         | ok v1 rs1 =>
           rw [h1] at ih
           obtain ⟨s1, m1, w1, r1, l1, hv1, rel1, hm1, ext1, fr1, hcl1⟩ := ih
           obtain ⟨r2, m2⟩ := glue_pop hseg l1
           have hfr := fr1.trans (FrameF.jmp s1 (s1.pc + 1) s.data)
-          have ih2 := hB self (e' :: es') (by simp) hes.2 isFn c gs1 (rb, gs2) hb hfn ps (hkn.keep hk1.1 rfl rfl) hps
+          have ih2 := hB ex self (e' :: es') (by simp) hes.2 isFn c gs1 (rb, gs2) hb hfn hex1 ps (hkn.keep tot1.1 rfl rfl) hps
             m₁ s₁ rs₁ env vid D m1 (s1.jmp (s1.pc + 1) s.data) rs1 cenv _ post (hact.moved m2 hfr hm1 ext1) hna (rel1.jmp _ _)
-            ((hgen.rest hk1.1).frame hfr.toFrame)
+            ((hgen.rest tot1.1).frame hfr.toFrame)
+            ((hlo.mono tot1.2.1 (Nat.le_refl _)).app ((tot1.2.2.below (Nat.le_refl _)).app (lsOut_pop _ _)))
             (hseg.moved m2 (c₁ := ra.1 ++ [.pop]) (c₂ := rb.1) (post' := post) rfl (by simp))
           exact SimT.seq (r1.trans r2.toX) m2 hm1 ext1 hfr ih2 (by lenarith)
         | err rs1 => rw [h1] at ih; exact ih
@@ -542,15 +811,16 @@ theorem tclaimB_succ {n : Nat} (hFE : FClaimE n) (hE : TClaimE n) (hB : TClaimB 
       · intro hh; cases hh
     · intro hh; cases hh
 
-theorem tclaimN_succ {n : Nat} (hFE : FClaimE n) (hE : TClaimE n) (hN : TClaimN n) : TClaimN (n + 1) := by
-  intro self es hne hes isFn c oldtail gs r hc hfn ps hkn hps m₁ s₁ rs₁ env vid D m s rs cenv pre post hact hna hrel hgen hseg
+theorem tclaimN_succ {n : Nat} (hFE : FClaimE n) (hXE : XClaimE n) (hE : TClaimE n) (hN : TClaimN n) : TClaimN (n + 1) := by
+  intro ex self es hne hes isFn c oldtail gs r hc hfn hex ps hkn hps m₁ s₁ rs₁ env vid D m s rs cenv pre post hact hna hrel hgen
+    hlo hseg
   match es, hne with
   | [e], _ =>
     rw [FzList] at hes
     rw [compileNewScope] at hc
     rw [Ref.evalBegin]
-    exact hE self e hes isFn _ gs r hc hfn ps (hkn.keep (KeepFns.refl _) rfl rfl) hps m₁ s₁ rs₁ env vid D m s rs cenv pre post
-      hact hna hrel hgen hseg
+    exact hE ex self e hes isFn _ gs r hc hfn hex ps (hkn.keep (KeepFns.refl _) rfl rfl) hps m₁ s₁ rs₁ env vid D m s rs cenv
+      pre post hact hna hrel hgen hlo hseg
   | e :: e' :: es', _ =>
     rw [FzList] at hes
     simp only [Bool.and_eq_true] at hes
@@ -558,21 +828,23 @@ theorem tclaimN_succ {n : Nat} (hFE : FClaimE n) (hE : TClaimE n) (hN : TClaimN 
     · simp only [g_bind_ok, g_pure_ok] at hc
       obtain ⟨ra, gs1, ha, rb, gs2, hb, rfl⟩ := hc
       have hfn' : FnameOk self { c with tail := false } := hfn
-      have hk1 := compile_keep_Ff hes.1 ha hfn'
-      have hk2 := compileNewScope_tot_Fz (by simp) hes.2 hfn hb
-      simp only at hgen
+      obtain ⟨hane', tot1⟩ := tot_stmt hes.1 hfn' hex ha
+      have hex1 : ex = true → gs1.loopstack = [] := fun h => by rw [tot1.1.loopstack]; exact hex h
+      have tot2 := compileNewScope_tot_Fz (by simp) hes.2 hfn hex1 hb
+      simp only at hgen hlo
       rw [Ref.evalBegin]
-      · have ih := hFE true self e hes.1 isFn _ gs (ra, gs1) ha hfn' m s rs cenv pre ([.pop] ++ rb.1 ++ post) hrel
-          (fun _ => hgen.first hk2) (hseg.refocus (by simp))
+      · have ih := simF_stmt hFE hXE hes.1 isFn _ gs (ra, gs1) ha hfn' hex m s rs cenv pre ([.pop] ++ rb.1 ++ post) hrel
+          (hgen.first tot2.1) (hlo.mono (Nat.le_refl _) tot2.2.1) (hseg.refocus (by simp))
         cases h1 : Ref.eval n e cenv rs with
         | ok v1 rs1 =>
           rw [h1] at ih
           obtain ⟨s1, m1, w1, r1, l1, hv1, rel1, hm1, ext1, fr1, hcl1⟩ := ih
           obtain ⟨r2, m2⟩ := glue_pop hseg l1
           have hfr := fr1.trans (FrameF.jmp s1 (s1.pc + 1) s.data)
-          have ih2 := hN self (e' :: es') (by simp) hes.2 isFn c oldtail gs1 (rb, gs2) hb hfn ps (hkn.keep hk1.1 rfl rfl) hps
-            m₁ s₁ rs₁ env vid D m1 (s1.jmp (s1.pc + 1) s.data) rs1 cenv _ post (hact.moved m2 hfr hm1 ext1) hna (rel1.jmp _ _)
-            ((hgen.rest hk1.1).frame hfr.toFrame)
+          have ih2 := hN ex self (e' :: es') (by simp) hes.2 isFn c oldtail gs1 (rb, gs2) hb hfn hex1 ps (hkn.keep tot1.1 rfl rfl)
+            hps m₁ s₁ rs₁ env vid D m1 (s1.jmp (s1.pc + 1) s.data) rs1 cenv _ post (hact.moved m2 hfr hm1 ext1) hna
+            (rel1.jmp _ _) ((hgen.rest tot1.1).frame hfr.toFrame)
+            ((hlo.mono tot1.2.1 (Nat.le_refl _)).app ((tot1.2.2.below (Nat.le_refl _)).app (lsOut_pop _ _)))
             (hseg.moved m2 (c₁ := ra.1 ++ [.pop]) (c₂ := rb.1) (post' := post) rfl (by simp))
           exact SimT.seq (r1.trans r2.toX) m2 hm1 ext1 hfr ih2 (by lenarith)
         | err rs1 => rw [h1] at ih; exact ih
@@ -583,14 +855,15 @@ theorem tclaimN_succ {n : Nat} (hFE : FClaimE n) (hE : TClaimE n) (hN : TClaimN 
     · intro hh; cases hh
 
 theorem tclaimC_succ {n : Nat} (hFE : FClaimE n) (hE : TClaimE n) (hC : TClaimC n) : TClaimC (n + 1) := by
-  intro self arms d harms hd isFn c gs r gs0 rd hc hcd hfn ps hkn hkn0 hps m₁ s₁ rs₁ env vid D m s rs cenv pre post hact hna
-    hrel hgen hgend hseg
+  intro ex self arms d harms hd isFn c gs r gs0 rd hc hcd hfn hex hex0 ps hkn hkn0 hps m₁ s₁ rs₁ env vid D m s rs cenv pre post
+    hact hna hrel hgen hgend hlo hlod hdl hseg
   match arms with
   | [] =>
     rw [compileArms] at hc; simp only [g_pure_ok] at hc; subst hc
     rw [Ref.evalCond]
     simp only [asmCond] at hseg ⊢
-    exact hE self d hd isFn c gs0 rd hcd hfn ps hkn0 hps m₁ s₁ rs₁ env vid D m s rs cenv pre post hact hna hrel hgend hseg
+    exact hE ex self d hd isFn c gs0 rd hcd hfn hex0 ps hkn0 hps m₁ s₁ rs₁ env vid D m s rs cenv pre post hact hna hrel hgend
+      hlod hseg
   | (p, b) :: arms' =>
     rw [FzArms] at harms
     simp only [Bool.and_eq_true] at harms
@@ -598,13 +871,17 @@ theorem tclaimC_succ {n : Nat} (hFE : FClaimE n) (hE : TClaimE n) (hC : TClaimC 
     simp only [g_bind_ok, g_pure_ok] at hc
     obtain ⟨rest, gs1, hrest, rp, gs2, hp, rb, gs3, hb, rfl⟩ := hc
     have hfn' : FnameOk self { c with tail := false } := hfn
-    have hk1 := compileArms_tot_Fz harms.2 hfn hrest
-    have hk2 := compile_keep_Ff harms.1.1 hp hfn'
-    have hk3 := (compile_tot_Fz harms.1.2 hfn hb).2
+    have totr := compileArms_tot_Fz harms.2 hfn hex hrest
+    have totp := compile_tot_Ff harms.1.1 hfn' hp
+    have hex2 : ex = true → gs2.loopstack = [] := fun h => by rw [totp.1.loopstack, totr.1.loopstack]; exact hex h
+    obtain ⟨_, totb⟩ := compile_tot_Fz harms.1.2 hfn hex2 hb
+    have l01 : gs.loops.length ≤ gs1.loops.length := totr.2.1
+    have l12 : gs1.loops.length ≤ gs2.loops.length := totp.2.1
+    have l23 : gs2.loops.length ≤ gs3.loops.length := totb.2.1
     rw [Ref.evalCond]
-    simp only [asmCond] at hseg hgen ⊢
+    simp only [asmCond] at hseg hgen hlo ⊢
     have ih := hFE true self p harms.1.1 isFn _ gs1 (rp, gs2) hp hfn' m s rs cenv pre _ hrel
-      (fun _ => (hgen.rest hk1).first hk3) (hseg.refocus (c' := rp.1)
+      (fun _ => (hgen.rest totr.1).first totb.1) (hseg.refocus (c' := rp.1)
       (post' := [.branch false (rb.1.length + 2)] ++ rb.1 ++ [.jump ((asmCond rest rd.1.1).length + 1)]
         ++ asmCond rest rd.1.1 ++ post) (by simp))
     cases h1 : Ref.eval n p cenv rs with
@@ -617,9 +894,11 @@ theorem tclaimC_succ {n : Nat} (hFE : FClaimE n) (hE : TClaimE n) (hC : TClaimC 
       · rw [htr, if_pos ht]
         obtain ⟨r2, m2⟩ := glue_brn_fall hseg l1 ht
         have hfr := fr1.trans (FrameF.jmp s1 (s1.pc + 1) s.data)
-        have ih2 := hE self b harms.1.2 isFn c gs2 (rb, gs3) hb hfn ps (hkn.keep (hk1.trans hk2.1) rfl rfl) hps
+        have ih2 := hE ex self b harms.1.2 isFn c gs2 (rb, gs3) hb hfn hex2 ps (hkn.keep (totr.1.trans totp.1) rfl rfl) hps
           m₁ s₁ rs₁ env vid D m1 (s1.jmp (s1.pc + 1) s.data) rs1 cenv _ _ (hact.moved m2 hfr hm1 ext1) hna (rel1.jmp _ _)
-          ((hgen.rest (hk1.trans hk2.1)).frame hfr.toFrame)
+          ((hgen.rest (totr.1.trans totp.1)).frame hfr.toFrame)
+          ((hlo.mono (Nat.le_trans l01 l12) (Nat.le_refl _)).app
+            ((totp.2.2.below (Nat.le_refl _)).app (lsOut_one (.branch false (rb.1.length + 2)) _ _)))
           (hseg.moved m2 (c₁ := rp.1 ++ [.branch false (rb.1.length + 2)]) (c₂ := rb.1)
             (post' := [.jump ((asmCond rest rd.1.1).length + 1)] ++ asmCond rest rd.1.1 ++ post)
             (by simp) (by simp))
@@ -627,10 +906,19 @@ theorem tclaimC_succ {n : Nat} (hFE : FClaimE n) (hE : TClaimE n) (hC : TClaimC 
       · rw [htr, if_neg ht]
         obtain ⟨r2, m2⟩ := glue_brn_taken hseg l1 (by simpa using ht)
         have hfr := fr1.trans (FrameF.jmp s1 (s1.pc + ((rb.1.length : Int) + 2)) s.data)
-        have ih2 := hC self arms' d harms.2 hd isFn c gs (rest, gs1) gs0 rd hrest hcd hfn ps hkn hkn0 hps
+        have hk13 := totp.1.trans totb.1
+        have ih2 := hC ex self arms' d harms.2 hd isFn c gs (rest, gs1) gs0 rd hrest hcd hfn hex hex0 ps hkn hkn0 hps
           m₁ s₁ rs₁ env vid D m1 (s1.jmp (s1.pc + ((rb.1.length : Int) + 2)) s.data) rs1 cenv _ post
           (hact.moved m2 hfr hm1 ext1) hna (rel1.jmp _ _)
-          ((hgen.first (hk2.1.trans hk3)).frame hfr.toFrame) (hgend.frame hfr.toFrame)
+          ((hgen.first hk13).frame hfr.toFrame) (hgend.frame hfr.toFrame)
+          ((hlo.mono (Nat.le_refl _) (Nat.le_trans l12 l23)).app
+            ((((totp.2.2.above (Nat.le_refl _)).app (lsOut_one (.branch false (rb.1.length + 2)) _ _)).app
+              (totb.2.2.above l12)).app (lsOut_one (.jump ((asmCond rest rd.1.1).length + 1)) _ _)))
+          (hlod.app
+            ((((totp.2.2.above (Nat.le_trans hdl l01)).app (lsOut_one (.branch false (rb.1.length + 2)) _ _)).app
+              (totb.2.2.above (Nat.le_trans hdl (Nat.le_trans l01 l12)))).app
+              (lsOut_one (.jump ((asmCond rest rd.1.1).length + 1)) _ _)))
+          hdl
           (hseg.moved m2 (c₁ := rp.1 ++ [.branch false (rb.1.length + 2)] ++ rb.1
               ++ [.jump ((asmCond rest rd.1.1).length + 1)]) (c₂ := asmCond rest rd.1.1) (post' := post)
             (by simp) (by lenarith))
@@ -640,9 +928,10 @@ theorem tclaimC_succ {n : Nat} (hFE : FClaimE n) (hE : TClaimE n) (hC : TClaimC 
     | brk l rs1 => rw [h1] at ih; exact ih.elim
     | cont l rs1 => rw [h1] at ih; exact ih.elim
 
-theorem tclaimE_succ {n : Nat} (hFE1 : FClaimE (n + 1)) (hV : TClaimV n) (hA : FClaimA n) (hU : FClaimU n) (hL : FClaimL n)
-    (hP : FClaimP n) (hB : TClaimB n) (hC : TClaimC n) (hN : TClaimN n) : TClaimE (n + 1) := by
-  intro self e he isFn c gs r hc hfn ps hkn hps m₁ s₁ rs₁ env vid D m s rs cenv pre post hact hna hrel hgen hseg
+theorem tclaimE_succ {n : Nat} (hFE1 : FClaimE (n + 1)) (hXE1 : XClaimE (n + 1)) (hV : TClaimV n) (hA : FClaimA n)
+    (hU : FClaimU n) (hL : FClaimL n) (hP : FClaimP n) (hB : TClaimB n) (hC : TClaimC n) (hN : TClaimN n) :
+    TClaimE (n + 1) := by
+  intro ex self e he isFn c gs r hc hfn hex ps hkn hps m₁ s₁ rs₁ env vid D m s rs cenv pre post hact hna hrel hgen hlo hseg
   have hff : Ff true self e = true → SimT r.1.1 s₁ env D m s rs cenv (Ref.eval (n + 1) e cenv rs) := fun h =>
     (hFE1 true self e h isFn c gs r hc hfn m s rs cenv pre post hrel (fun _ => hgen) hseg).toT
   cases e with
@@ -663,8 +952,8 @@ theorem tclaimE_succ {n : Nat} (hFE1 : FClaimE (n + 1)) (hV : TClaimV n) (hA : F
     | cons e0 es0 =>
       rw [compile] at hc
       · rw [Ref.eval]
-        exact hB self (e0 :: es0) (by simp) he isFn c gs r hc hfn ps hkn hps m₁ s₁ rs₁ env vid D m s rs cenv pre post hact hna
-          hrel hgen hseg
+        exact hB ex self (e0 :: es0) (by simp) he isFn c gs r hc hfn hex ps hkn hps m₁ s₁ rs₁ env vid D m s rs cenv pre post
+          hact hna hrel hgen hlo hseg
       · intro hh; cases hh
   | cond arms d =>
     rw [Fz] at he
@@ -672,11 +961,13 @@ theorem tclaimE_succ {n : Nat} (hFE1 : FClaimE (n + 1)) (hV : TClaimV n) (hA : F
     rw [compile] at hc
     simp only [g_bind_ok, g_pure_ok] at hc
     obtain ⟨rd, gs1, hd, as, gs2, has, rfl⟩ := hc
-    have hk1 := (compile_tot_Fz he.2 hfn hd).2
-    have hk2 := compileArms_tot_Fz he.1 hfn has
+    obtain ⟨_, totd⟩ := compile_tot_Fz he.2 hfn hex hd
+    have hex1 : ex = true → gs1.loopstack = [] := fun h => by rw [totd.1.loopstack]; exact hex h
+    have tota := compileArms_tot_Fz he.1 hfn hex1 has
     rw [Ref.eval]
-    exact hC self arms d he.1 he.2 isFn c gs1 (as, gs2) gs (rd, gs1) has hd hfn ps (hkn.keep hk1 rfl rfl) hkn hps
-      m₁ s₁ rs₁ env vid D m s rs cenv pre post hact hna hrel (hgen.rest hk1) (hgen.first hk2) hseg
+    exact hC ex self arms d he.1 he.2 isFn c gs1 (as, gs2) gs (rd, gs1) has hd hfn hex1 hex ps (hkn.keep totd.1 rfl rfl) hkn hps
+      m₁ s₁ rs₁ env vid D m s rs cenv pre post hact hna hrel (hgen.rest totd.1) (hgen.first tota.1)
+      (hlo.mono totd.2.1 (Nat.le_refl _)) (hlo.mono (Nat.le_refl _) tota.2.1) (Nat.le_refl _) hseg
   | newScope es =>
     rw [Fz] at he
     simp only [Bool.and_eq_true, Bool.not_eq_true', List.isEmpty_eq_false_iff] at he
@@ -688,9 +979,9 @@ theorem tclaimE_succ {n : Nat} (hFE1 : FClaimE (n + 1)) (hV : TClaimV n) (hA : F
         obtain ⟨ra, gs1, ha, rfl⟩ := hc
         rw [Ref.eval]
         show SimT _ s₁ env D m s rs cenv (Ref.evalBegin n (e0 :: es0) rs.frames.length (Ref.newFrame rs cenv).2)
-        exact SimT.scoped hseg hrel (hN self (e0 :: es0) he.1 he.2 isFn _ _ gs (ra, gs1) ha hfn ps
+        exact SimT.scoped hseg hrel (hN ex self (e0 :: es0) he.1 he.2 isFn _ _ gs (ra, gs1) ha hfn hex ps
           (hkn.keep (KeepFns.refl _) rfl rfl) hps m₁ s₁ rs₁ env vid D m _ _ _ _ _ (hact.pushScope cenv) hna
-          hrel.pushScope (hgen.mono (FnsKeep.of_fns_eq rfl)) hseg.inner)
+          hrel.pushScope (hgen.mono (FnsKeep.of_fns_eq rfl)) (hlo.app (lsOut_one .addScope _ _)) hseg.inner)
       · intro hh; cases hh
   | let_ seq bs body =>
     rw [Fz] at he
@@ -702,7 +993,9 @@ theorem tclaimE_succ {n : Nat} (hFE1 : FClaimE (n + 1)) (hV : TClaimV n) (hA : F
     have hfn' : FnameOk self { c with scopes := c.scopes + 1, tail := false } := hfn
     have hfn'' : FnameOk self { c with scopes := c.scopes + 1 } := hfn
     have hk1 := compileBinds_keep_Ff hbs ha hfn'
-    have hk2 := compileBegin_tot_Fz hbody hbl hfn'' hb
+    have hl1 := compileBinds_ls_Ff true self bs hbs isFn _ seq gs _ ha hfn'
+    have hex1 : ex = true → gs1.loopstack = [] := fun h => by rw [hk1.1.loopstack]; exact hex h
+    have tot2 := compileBegin_tot_Fz hbody hbl hfn'' hex1 hb
     cases seq
     · -- parallel
       have hnd : (bs.map (·.1)).Nodup := by simpa using hseq
@@ -710,7 +1003,7 @@ theorem tclaimE_succ {n : Nat} (hFE1 : FClaimE (n + 1)) (hV : TClaimV n) (hA : F
           ++ rb.1 ++ [Instr.removeScope])
           = [Instr.addScope] ++ (ra.1 ++ (bs.map (fun p => Instr.popStackPutEnv p.1)).reverse ++ rb.1) ++ [Instr.removeScope] := by
         simp
-      simp only [Bool.false_eq_true, hcode] at hseg hgen ⊢
+      simp only [Bool.false_eq_true, hcode] at hseg hgen hlo ⊢
       rw [Ref.eval]
       show SimT _ s₁ env D m s rs cenv (if false = true then _ else
           (match Ref.evalList n (bs.map (·.2)) rs.frames.length (Ref.newFrame rs cenv).2 with
@@ -722,7 +1015,7 @@ theorem tclaimE_succ {n : Nat} (hFE1 : FClaimE (n + 1)) (hV : TClaimV n) (hA : F
       refine SimT.scoped hseg hrel ?_
       have hseg1 := hseg.inner
       have hUb := letpar_binds hP isFn _ gs (ra, gs1) ha hfn' hnd hbs m s.pushScope (Ref.newFrame rs cenv).2 rs.frames.length _ _
-        hrel.pushScope (fun _ => (hgen.first hk2).mono (FnsKeep.of_fns_eq rfl))
+        hrel.pushScope (fun _ => (hgen.first tot2.1).mono (FnsKeep.of_fns_eq rfl))
         (hseg1.refocus (c' := ra.1 ++ (bs.map (fun p => Instr.popStackPutEnv p.1)).reverse)
           (post' := rb.1 ++ ([.removeScope] ++ post)) (by simp))
       cases h1 : Ref.evalList n (bs.map (·.2)) rs.frames.length (Ref.newFrame rs cenv).2 with
@@ -734,9 +1027,12 @@ theorem tclaimE_succ {n : Nat} (hFE1 : FClaimE (n + 1)) (hV : TClaimV n) (hA : F
           rw [h2] at hUb
           obtain ⟨s2, m2, r2, mv2, rel2, hm2, ext2, fr2⟩ := hUb
           simp only
-          have ihb := hB self body hbody hbl isFn _ gs1 (rb, gs2) hb hfn'' ps (hkn.keep hk1.1 rfl rfl) hps
+          have ihb := hB ex self body hbody hbl isFn _ gs1 (rb, gs2) hb hfn'' hex1 ps (hkn.keep hk1.1 rfl rfl) hps
             m₁ s₁ rs₁ env vid D m2 s2 rs3 _ _ _ ((hact.pushScope cenv).moved mv2 fr2 hm2 ext2) hna rel2
             (((hgen.rest hk1.1).mono (s' := s.pushScope) (FnsKeep.of_fns_eq rfl)).frame fr2.toFrame)
+            (((hlo.mono hl1.1 (Nat.le_refl _)).app (lsOut_one .addScope _ _)).app
+              (LsOut.app (hl1.2.below (Nat.le_refl _))
+                (fun l hl => by simp only [List.mem_reverse, List.mem_map] at hl; obtain ⟨_, _, hh⟩ := hl; cases hh)))
             (hseg1.moved mv2 (c₁ := ra.1 ++ (bs.map (fun p => Instr.popStackPutEnv p.1)).reverse) (c₂ := rb.1)
               (post' := [.removeScope] ++ post) (by simp) rfl)
           exact SimT.seq r2 mv2 hm2 ext2 fr2 ihb (by simp only [List.length_append])
@@ -748,7 +1044,7 @@ theorem tclaimE_succ {n : Nat} (hFE1 : FClaimE (n + 1)) (hV : TClaimV n) (hA : F
     · -- sequential
       have hcode : ([Instr.addScope] ++ ra.1 ++ (if True then [] else (List.map (fun p => Instr.popStackPutEnv p.fst) bs).reverse)
           ++ rb.1 ++ [Instr.removeScope]) = [Instr.addScope] ++ (ra.1 ++ rb.1) ++ [Instr.removeScope] := by simp
-      simp only [hcode] at hseg hgen ⊢
+      simp only [hcode] at hseg hgen hlo ⊢
       rw [Ref.eval]
       show SimT _ s₁ env D m s rs cenv (if true = true then
           (match Ref.evalLetSeq n bs rs.frames.length (Ref.newFrame rs cenv).2 with
@@ -759,21 +1055,25 @@ theorem tclaimE_succ {n : Nat} (hFE1 : FClaimE (n + 1)) (hV : TClaimV n) (hA : F
       refine SimT.scoped hseg hrel ?_
       have hseg1 := hseg.inner
       have hUl := hL true self bs hbs isFn _ gs (ra, gs1) ha hfn' m _ _ _ _ _ hrel.pushScope
-        (fun _ => (hgen.first hk2).mono (FnsKeep.of_fns_eq rfl))
+        (fun _ => (hgen.first tot2.1).mono (FnsKeep.of_fns_eq rfl))
         (hseg1.refocus (c' := ra.1) (post' := rb.1 ++ ([.removeScope] ++ post)) (by simp))
       cases h1 : Ref.evalLetSeq n bs rs.frames.length (Ref.newFrame rs cenv).2 with
       | ok u rs2 =>
         rw [h1] at hUl
         obtain ⟨s2, m2, r2, mv2, rel2, hm2, ext2, fr2⟩ := hUl
-        have ihb := hB self body hbody hbl isFn _ gs1 (rb, gs2) hb hfn'' ps (hkn.keep hk1.1 rfl rfl) hps
+        have ihb := hB ex self body hbody hbl isFn _ gs1 (rb, gs2) hb hfn'' hex1 ps (hkn.keep hk1.1 rfl rfl) hps
           m₁ s₁ rs₁ env vid D m2 s2 rs2 _ _ _ ((hact.pushScope cenv).moved mv2 fr2 hm2 ext2) hna rel2
           (((hgen.rest hk1.1).mono (s' := s.pushScope) (FnsKeep.of_fns_eq rfl)).frame fr2.toFrame)
+          (((hlo.mono hl1.1 (Nat.le_refl _)).app (lsOut_one .addScope _ _)).app (hl1.2.below (Nat.le_refl _)))
           (hseg1.moved mv2 (c₁ := ra.1) (c₂ := rb.1) (post' := [.removeScope] ++ post) (by simp) rfl)
         exact SimT.seq r2 mv2 hm2 ext2 fr2 ihb (by lenarith)
       | err rs2 => rw [h1] at hUl; exact hUl
       | timeout => trivial
       | brk l rs2 => rw [h1] at hUl; exact hUl.elim
       | cont l rs2 => rw [h1] at hUl; exact hUl.elim
+  | for_ l i t st b =>
+    rw [Fz] at he
+    exact (simF_stmt hFE1 hXE1 he isFn c gs r hc hfn hex m s rs cenv pre post hrel hgen hlo hseg).toT
   | int v => rw [Fz] at he; exact hff he
   | bool v => rw [Fz] at he; exact hff he
   | str v => rw [Fz] at he; exact hff he
@@ -784,7 +1084,6 @@ theorem tclaimE_succ {n : Nat} (hFE1 : FClaimE (n + 1)) (hV : TClaimV n) (hA : F
   | set_ x e => rw [Fz] at he; exact hff he
   | and_ es => rw [Fz] at he; exact hff he
   | or_ es => rw [Fz] at he; exact hff he
-  | for_ l i t st b => rw [Fz] at he; exact hff he
   | fn ps' rest body => rw [Fz] at he; exact hff he
   | defn name ps' rest body => rw [Fz] at he; exact hff he
   | assign _ _ => simp [Fz] at he
@@ -796,14 +1095,16 @@ theorem tclaims_zero : TClaimV 0 ∧ TClaimE 0 ∧ TClaimB 0 ∧ TClaimC 0 ∧ T
   refine ⟨?_, ?_, ?_, ?_, ?_⟩
   · intro self args hargs isFn c f i gs r hc hfn hlz m s rs env pre post hrel hseg
     rw [Ref.evalList]; trivial
-  · intro self e he isFn c gs r hc hfn ps hkn hps m₁ s₁ rs₁ env vid D m s rs cenv pre post hact hna hrel hgen hseg
+  · intro ex self e he isFn c gs r hc hfn hex ps hkn hps m₁ s₁ rs₁ env vid D m s rs cenv pre post hact hna hrel hgen hlo hseg
     rw [Ref.eval]; trivial
-  · intro self es hne hes isFn c gs r hc hfn ps hkn hps m₁ s₁ rs₁ env vid D m s rs cenv pre post hact hna hrel hgen hseg
+  · intro ex self es hne hes isFn c gs r hc hfn hex ps hkn hps m₁ s₁ rs₁ env vid D m s rs cenv pre post hact hna hrel hgen hlo
+      hseg
     rw [Ref.evalBegin]; trivial
-  · intro self arms d harms hd isFn c gs r gs0 rd hc hcd hfn ps hkn hkn0 hps m₁ s₁ rs₁ env vid D m s rs cenv pre post hact hna
-      hrel hgen hgend hseg
+  · intro ex self arms d harms hd isFn c gs r gs0 rd hc hcd hfn hex hex0 ps hkn hkn0 hps m₁ s₁ rs₁ env vid D m s rs cenv pre post
+      hact hna hrel hgen hgend hlo hlod hdl hseg
     rw [Ref.evalCond]; trivial
-  · intro self es hne hes isFn c oldtail gs r hc hfn ps hkn hps m₁ s₁ rs₁ env vid D m s rs cenv pre post hact hna hrel hgen hseg
+  · intro ex self es hne hes isFn c oldtail gs r hc hfn hex ps hkn hps m₁ s₁ rs₁ env vid D m s rs cenv pre post hact hna hrel
+      hgen hlo hseg
     rw [Ref.evalBegin]; trivial
 
 /-! ## Applying a closure object (`FClaimU`): the body is in tail position -/
@@ -811,7 +1112,7 @@ theorem tclaims_zero : TClaimV 0 ∧ TClaimE 0 ∧ TClaimB 0 ∧ TClaimC 0 ∧ T
 theorem fclaimU_succ {n : Nat} (hB : TClaimB n) : FClaimU (n + 1) := by
   intro m s₁ rs₁ env vid vs D hrel hg hd hvs hlen
   obtain ⟨c, hc1, hrest, hnd, hokp, hbody, hparams, hnargs, hvar, huser, hel, _,
-    t, b, tl, isFn, cb, gs0, gs1, self, hcode, htlt, htclo, hcomp, hsc0, hfname, hff, hgen, hkn⟩ := hg.clo
+    t, b, tl, isFn, cb, gs0, gs1, self, hcode, htlt, htclo, hcomp, hsc0, hfname, ⟨ex, hff, hexg⟩, hgen, hkn⟩ := hg.clo
   have hvl : vs.length = c.ps.length := by rw [hlen, hnargs]
   -- the reference side
   rw [Ref.applyFn]
@@ -911,8 +1212,10 @@ theorem fclaimU_succ {n : Nat} (hB : TClaimB n) : FClaimU (n + 1) := by
     ⟨hrel, hg, hcur4, haddr4, hsusp4, hd4, ⟨[], by rw [hlin4]; rfl, by rw [hsc0]; rfl⟩, by rw [hfns4]; exact Nat.le_refl _,
       fun id _ => by unfold fnOf; rw [hfns4], by rw [hloops4]; exact Nat.le_refl _, fun id _ => by rw [hloops4], hscl14, hfl14,
       MExt.refl _ _, ⟨hext1B, fun i c' hc' => by rw [hclB]; exact hc'⟩⟩
-  have hsim := hB self c.body hbody hff isFn cb gs0 ((b, tl), gs1) hcomp hfname c.ps hkn hokp m s₁ rs₁ env vid D m s₄ rsB
-    rs₁.frames.length _ _ hact hnargs relB (hgen.mono (FnsKeep.of_fns_eq hfns4 (LoopsExt.of_eq hloops4))) hseg4
+  have hlo4 : LsOut ([.addFuncScope t] ++ (c.ps.map Instr.popStackPutEnv).reverse) gs0.loops.length gs1.loops.length :=
+    fun l hl => by simp at hl
+  have hsim := hB ex self c.body hbody hff isFn cb gs0 ((b, tl), gs1) hcomp hfname hexg c.ps hkn hokp m s₁ rs₁ env vid D m s₄ rsB
+    rs₁.frames.length _ _ hact hnargs relB (hgen.mono (FnsKeep.of_fns_eq hfns4 (LoopsExt.of_eq hloops4))) hlo4 hseg4
   have hreach4 : ReachX (entered s₁ vid) s₄ := r2.trans r4
   cases hres : Ref.evalBegin n c.body rs₁.frames.length rsB with
   | ok v' rs' =>
